@@ -70,7 +70,8 @@ class C17(Property):
         "compared with independently evaluated exact curves (De Casteljau, circle through three points, Catmull-Rom polynomial, polyline) "
         "in both directions with bounds derived from the constants 0.25 / 0.1 (arc: 0.4 for curve → path, the proved bound) / 50 steps, and the model is tied to the code bit-for-bit.")
     technique = "Lean 4 proof of the structural part and, over the reals, of the end-point and arc-tolerance clauses + bit-exact differential correspondence + independent exact-curve oracle (test)"
-    required_theorems = ["linear_identity", "dispatch_bspline", "dispatch_perfect_not_three", "dispatch_perfect_three",
+    required_theorems = ["catmull_within_bound_real", "catmull_points_on_spline_real", "approximate_catmull_spans", "cubic_chord_error", "catmull_chord_within", "catmull_chord_error_sharp",
+                         "linear_identity", "dispatch_bspline", "dispatch_perfect_not_three", "dispatch_perfect_three",
                          "arc_refused_collinear", "arc_refused_large", "arc_point_count", "segment_ends_at_last",
                          "piece_starts_at_first", "joint_dedup", "joint_dedup_first", "catmull_points_on_spline", "catmullRom_endpoints",
                          "thetaLoop_fuel",
